@@ -1,5 +1,6 @@
 use crate::Args;
 
+pub mod c01;
 pub mod c06;
 
 pub fn dispatch(a: &Args) -> i32 {
@@ -7,6 +8,7 @@ pub fn dispatch(a: &Args) -> i32 {
         return replay(a, p);
     }
     match a.prop.as_str() {
+        "C01" => c01::run(a),
         "C06" => c06::run(a),
         "scenarios" => {
             // debug: run every directed scenario and print the outcome
